@@ -138,7 +138,7 @@ int64_t Model::mask_of_logger_at(int slot, uint64_t seq) const
 
 // ---- registry ------------------------------------------------------------------------------------
 void register_c03(std::vector<Profile>&);
-void register_delivery_profiles(std::vector<Profile>&);
+void register_c06(std::vector<Profile>&);
 
 static std::vector<Profile>& registry()
 {
@@ -146,7 +146,7 @@ static std::vector<Profile>& registry()
   {
     std::vector<Profile> v;
     register_c03(v);
-    register_delivery_profiles(v);
+    register_c06(v);
     return v;
   }();
   return r;
